@@ -398,6 +398,10 @@ class Cells:
     def premise(self, s):
         """True iff the value reaches the comparison as the intended plain value."""
         want = to_plain(ref_of(s))
+        if self.path == "literal" and s[0] == "timestamp":
+            # "timestamps compare by instant regardless of the zone they were written in": how the
+            # written zone is read is part of what is compared, so a spelled timestamp is never excused
+            return True, None
         if self.path == "literal":
             o = celrun.evaluate(self.rk, spell(s))
         else:
